@@ -101,7 +101,34 @@ def one(name, with_tests):
     return meta
 
 
+def readme():
+    root = os.path.join(VERIF, 'seeded')
+    rows = []
+    for name in sorted(os.listdir(root)):
+        mp = os.path.join(root, name, 'meta.json')
+        if not os.path.exists(mp):
+            continue
+        m = json.load(open(mp))
+        files = [ln[6:].strip() for ln in open(os.path.join(root, name, 'patch.diff')) if ln.startswith('+++ b/')]
+        t = m.get('repo_tests_with_change') or {}
+        rows.append('| %s | %s | %s | %s | %s | %s | %s |' % (
+            name, ', '.join(f.replace('wntr/', '') for f in files), m.get('needs_to_manifest', ''),
+            'yes' if m.get('confirmed') else 'NO', t.get('summary', 'not run')[:60].replace('|', '/'),
+            'yes' if m.get('caught') else 'NO',
+            ', '.join('%s x%d' % kv for kv in sorted((m.get('check') or {}).get('kinds', {}).items()))))
+    with open(os.path.join(root, 'README.md'), 'w') as f:
+        f.write('# Seeded changes (generated by tools/seedall.py - do not edit)\n\n'
+                'Each change keeps the repository\'s tests green, breaks its property only under the stated condition, and was verified in a\n'
+                'scratch worktree of /repo (demo.py exits 0 without the change, non-zero with it). "caught" = `./check <property> --tier quick`\n'
+                'against the patched worktree exits 1 with VIOLATION lines of the listed kinds.\n\n'
+                '| change | file(s) | needs | demo confirms | repo tests with change | caught | violation kinds |\n|---|---|---|---|---|---|---|\n')
+        f.write('\n'.join(rows) + '\n')
+
+
 def main():
+    if '--readme' in sys.argv:
+        readme()
+        return
     args = [a for a in sys.argv[1:] if not a.startswith('--')]
     with_tests = '--tests' in sys.argv
     jobs = 6
@@ -123,6 +150,8 @@ def main():
         for k in ('origin', 'notes'):
             if k in old:
                 meta[k] = old[k]
+        if not meta.get('needs_to_manifest') and old.get('needs_to_manifest'):
+            meta['needs_to_manifest'] = old['needs_to_manifest']
         json.dump(meta, open(p, 'w'), indent=1, sort_keys=True)
         print('%-40s confirmed=%s caught=%s %s %s' % (name, meta.get('confirmed'), meta.get('caught'), meta.get('check', {}).get('kinds'), meta.get('error', '')))
         return
@@ -137,6 +166,7 @@ def main():
                 running.remove(p_)
         import time
         time.sleep(0.5)
+    readme()
 
 
 if __name__ == '__main__':
